@@ -291,7 +291,11 @@ class E1Session(SessionBase):
         self.seen_types.add(name)
         self.st.probes[f'element_event:{name}'] += 1
         when = f'after {name} {el.uid}'
-        self._check_si(si, None, when, range_check=not self.out_of_domain)
+        if self.out_of_domain:
+            # shares may be negative / larger than one here, and their sum then cancels catastrophically in floating
+            # point: nothing of the property is judged for the rest of this propagation
+            return None
+        self._check_si(si, None, when)
         if pre is None or self.out_of_domain:
             return None
         fo = np.array(si.frequency, dtype=float)
